@@ -31,7 +31,7 @@ def run_one(m):
         results = {}
         for pid in m["caught_by"]:
             c = subprocess.run([os.path.join(VERIF, "check"), pid, "--tier", "quick"], env=env, capture_output=True, text=True, cwd=VERIF)
-            results[pid] = (c.returncode, c.stdout[-1500:])
+            results[pid] = (c.returncode, c.stdout)
         return m, "ran", results
     finally:
         shutil.rmtree(scratch, ignore_errors=True)
@@ -58,7 +58,7 @@ def main():
                 fired = rc == 1 and "VIOLATION property=%s" % pid in out
                 named = (not rule) or any(rule in line for line in out.splitlines())
                 ok = fired and named
-                print("MUTANT %-48s %s: %s%s" % (os.path.basename(m["patch"]), pid, "caught" if ok else "MISSED (rc=%d)" % rc, "" if ok else "\n" + out))
+                print("MUTANT %-48s %s: %s%s" % (os.path.basename(m["patch"]), pid, "caught" if ok else "MISSED (rc=%d)" % rc, "" if ok else "\n" + out[-1500:]))
                 if not ok:
                     missed += 1
     print("selftest: %d mutants, %d missed" % (len(ms), missed))
